@@ -156,6 +156,7 @@ func c14World(rc *kernel.RunCtx) {
 	kn := drawKnobs(t, rc.Run)
 	kn.OwnBuf = false
 	kn.BufSize = blockBufSize(rc.Run, []int{16, 16, 64, 64, 512, 4096})
+	devFileYear := 0
 	dev := t.Chance(1, 4, "devmode")
 	devFilesJustModified = dev && t.Chance(1, 3, "text-files-just-modified")
 	simsync.NewEpoch()
@@ -350,7 +351,43 @@ func c14World(rc *kernel.RunCtx) {
 			rc.Res.Restart = true
 			break
 		}
+		if dev && !devFilesJustModified && t.Chance(1, 8, "text-files-written-again") {
+			// `templ generate --watch` writes the text files again (here: the same content, a newer
+			// modification time) while pages are being rendered: the next look at a file reloads it
+			devFileYear++
+			ents, _ := os.ReadDir(devModeRoot)
+			for _, e := range ents {
+				p := filepath.Join(devModeRoot, e.Name())
+				if b, err := os.ReadFile(p); err == nil {
+					os.WriteFile(p, b, 0o644)
+					mt := time.Date(2001+devFileYear, 1, 1, 0, 0, 0, 0, time.UTC)
+					os.Chtimes(p, mt, mt)
+				}
+			}
+			k.Count("fault_devmode_text_files_written_again_mid_run", 1)
+		}
 		if burst {
+			if dev && !devFilesJustModified && t.Chance(1, 3, "text-files-written-during-burst") {
+				// race build: the files are written again while the renders are running
+				done := make(chan struct{})
+				go func() {
+					defer close(done)
+					for i := 0; i < 4; i++ {
+						devFileYear++
+						ents, _ := os.ReadDir(devModeRoot)
+						for _, e := range ents {
+							p := filepath.Join(devModeRoot, e.Name())
+							mt := time.Date(2001+devFileYear, 1, 1, 0, 0, 0, 0, time.UTC)
+							os.Chtimes(p, mt, mt)
+						}
+						runtime.Gosched()
+					}
+				}()
+				k.Burst(ps, kernel.Decision{})
+				<-done
+				k.Count("fault_devmode_text_files_touched_during_burst", 1)
+				continue
+			}
 			k.Burst(ps, kernel.Decision{})
 			continue
 		}
